@@ -467,7 +467,7 @@ def check(tier: str, seed: int) -> int:
     counts = dict(COUNTS[tier])
     if tie_broken:  # search harder where the tie is
         for fam in ("channel", "device", "layout", "noise"):
-            counts[fam] = int(counts[fam] * 1.5)
+            counts[fam] = int(counts[fam] * (1.2 if tier == "quick" else 2))
     stats = dict(family=collections.Counter(), cls=collections.Counter(), build_errors=collections.Counter(),
                  optional_default=collections.Counter(), optional_nondefault=collections.Counter(),
                  fail_clauses=collections.Counter(), noise_types=collections.Counter(),
@@ -716,8 +716,21 @@ def replay(path: str) -> int:
         model = None
     family = item["family"]
     bad = False
+    findings_hit = False
+    findings = _findings()
     specs = [item["spec"]] + ([item["then"]] if "then" in item else [])
     prev = None
+
+    def report(f):
+        nonlocal bad
+        nonlocal findings_hit
+        kf = match_known(PROP, f.key, findings)
+        if kf is not None:
+            findings_hit = True
+            print(f"monitor: {f}   [known finding {kf['id']}]")
+        else:
+            print("monitor:", f)
+            bad = True
     for spec in specs:
         res = run_case(model, family, spec)
         print(f"--- {family} spec: {json.dumps(spec)[:600]}")
@@ -727,22 +740,21 @@ def replay(path: str) -> int:
         if res.json:
             print("json:", res.json[:600])
         for f in res.fails:
-            print("monitor:", f)
-            bad = True
+            report(f)
         for d in res.divs:
             print("model/implementation:", d)
             bad = True
-        if prev is not None:
+        if prev is not None and prev[1] is not None:
             for f in g.monitor_aliasing(family, prev[0], prev[1], prev[2], "constructing/decoding another object"):
-                print("monitor:", f)
-                bad = True
+                report(f)
         with warnings.catch_warnings():
             warnings.simplefilter("ignore")
-            prev = (spec, res.obj, g.deep_snapshot(family, res.obj))
+            prev = (spec, res.obj, g.deep_snapshot(family, res.obj) if res.obj is not None else None)
     if model is not None:
         model.close()
     if bad:
         print(f"VIOLATION property={PROP} replay={path}")
         return 1
-    print("replay: property holds on this case")
+    print("replay: nothing but known findings fails on this case" if findings_hit else
+          "replay: property holds on this case")
     return 0
